@@ -65,7 +65,7 @@ class CtxCoder(build.Coder):
         return out
 
     def entry(self, ch, n):
-        return '\n'.join(["log.append(('E', %r, time))" % n, 'v = v + 1', 'shared.append(v)'] + self._sends(ch['states'][n]['sends_entry']))
+        return '\n'.join(["log.append(('E', %r, time))" % n, 'v = v + 1', 'shared.append(v)', 'nest["l"].append(v)'] + self._sends(ch['states'][n]['sends_entry']))
 
     def exit(self, ch, n):
         return '\n'.join(["log.append(('X', %r, time))" % n, 'v = v + 1'] + self._sends(ch['states'][n]['sends_exit']))
@@ -81,7 +81,7 @@ class CtxCoder(build.Coder):
     def cond(self, ch, owner_is_transition, cid, kind):
         if kind == 'pre':
             return 'K(log, %r, time, None)' % cid
-        return 'K(log, %r, time, __old__.v) and __old__.v <= v' % cid
+        return 'K(log, %r, time, (__old__.v, len(__old__.nest["l"]))) and __old__.v <= v' % cid
 
 
 def make_prop(sc, clock):
@@ -124,7 +124,7 @@ class World:
 
     def __init__(self, ch, coder, with_peers):
         self.sc, _ = build.build_api(ch, coder=coder)
-        self.it = Interpreter(self.sc, initial_context=dict(log=[], shared=[], v=0, uid=1000, stepno=0, G=G, K=K))
+        self.it = Interpreter(self.sc, initial_context=dict(log=[], shared=[], nest={'l': []}, v=0, uid=1000, stepno=0, G=G, K=K))
         self.peer = None
         self.prop = None
         if with_peers:
@@ -254,6 +254,7 @@ def run_case(acc, rnd, tier, case):
             orig = World(ch, coder, with_peers)
             k = 0
             restored = None
+            restored_first = rnd.random() < 0.5     # which of the two is stepped first must not matter: they share nothing
             ok = True
             for op in script:
                 if op[0] == 'step' and k == kb and restored is None:
@@ -264,9 +265,14 @@ def run_case(acc, rnd, tier, case):
                                       (method, kb, type(e).__name__, str(e)[:200]), dict(wit, k=kb, method=method))
                         return
                 if op[0] == 'step':
-                    oo = apply(orig, op, k)
-                    if restored is not None:
+                    if restored is not None and restored_first:
                         orr = apply(restored, op, k)
+                        oo = apply(orig, op, k)
+                    else:
+                        oo = apply(orig, op, k)
+                    if restored is not None:
+                        if not restored_first:
+                            orr = apply(restored, op, k)
                         oc = ctrl_obs[k]
                         if oo != oc:
                             acc.violation('C18:snapshot-disturbed-original', '%s at boundary %d: the original differs from a run '
